@@ -122,7 +122,7 @@ func (ac *asyncCase) describe(kind string) string {
 
 func genAsyncCase(c *fw.Ctx, r *rng.R) *asyncCase {
 	ac := &asyncCase{}
-	ac.n = []int{0, 1, 2, 3, 4, 5, 5, 8, 16, 33, 64, r.Range(0, 64)}[r.Intn(12)]
+	ac.n = []int{0, 1, 2, 3, 4, 5, 5, 8, 16, 33, 64, r.Range(0, 64), r.Range(0, 64), 200}[r.Intn(14)]
 	procs := []int{1, 4}
 	if !c.Quick() {
 		procs = []int{1, 2, 4, 16}
@@ -418,7 +418,7 @@ func c15ForEach(c *fw.Ctx, r *rng.R, ac *asyncCase, onList bool) {
 		} else {
 			o := at.NewObject()
 			for i, v := range vals {
-				k := fmt.Sprintf("key%02d", i)
+				k := fmt.Sprintf("key%04d", i)
 				keys = append(keys, k)
 				o.Set(k, v)
 			}
@@ -553,7 +553,7 @@ func c15Map(c *fw.Ctx, r *rng.R, ac *asyncCase, onList bool) {
 			o := at.NewObject()
 			pos := map[string]int{}
 			for i, v := range vals {
-				k := fmt.Sprintf("key%02d", i)
+				k := fmt.Sprintf("key%04d", i)
 				pos[k] = i
 				o.Set(k, v)
 			}
